@@ -520,7 +520,10 @@ def _selftest_corrupt(run, subdir, module, constants, segments, label, timeout):
         with open(path, "w") as f:
             for e in seg:
                 f.write(json.dumps(e, separators=(",", ":")) + "\n")
-        r = _validate_file(run, subdir, module, constants, path, gate=True, timeout=timeout)
+        try:
+            r = _validate_file(run, subdir, module, constants, path, gate=True, timeout=timeout)
+        except Inconclusive:
+            r = dict(accepted=False)      # the lie made a clause ill-defined (e.g. an index outside a sequence): not accepted either
         os.unlink(path)
         if not r["accepted"]:
             rejected += 1
